@@ -145,6 +145,9 @@ def run_sub(ctx, sub, strategy, case_fn, max_examples, known_match=None, shrink_
     search continues.
     """
     st = ctx.stats
+    only = os.environ.get("VERIF_SUBS")  # development aid: run only the named sub-checks (never set by the registered commands)
+    if only and sub not in only.split(","):
+        return
     if shrink_budget_s is None:
         shrink_budget_s = 40 if ctx.tier == "quick" else 180
     state = {"best": None, "first_fail_t": None, "err": None}
